@@ -148,6 +148,7 @@ func (c *Conn) checkEOF() {
 // note: getting this data means resetting it! so handle it wisely.
 // we also read out the In channel until it blocks.  Don't send any more input after calling this.
 func (c *Conn) getRedo() [][]byte {
+	verifEvent("redo.start", c.key, c)
 	// wait until HandleData (and checkEOF) have returned: the connection is down, so they are on their
 	// way out. HandleData may still hold a line it has taken from In but not yet added to keepSafe;
 	// collecting before it is done would miss that line (it would be neither delivered nor spooled).
@@ -160,9 +161,11 @@ func (c *Conn) getRedo() [][]byte {
 	for {
 		select {
 		case buf := <-c.In:
+			verifEvent("redo.drain", c.key, c, buf)
 			c.numBuffered.Dec(1)
 			c.keepSafe.Add(buf)
 		default:
+			defer verifEvent("redo.getall", c.key, c)
 			return c.keepSafe.GetAll()
 		}
 	}
@@ -177,6 +180,7 @@ func (c *Conn) alive(alive bool) {
 
 func (c *Conn) HandleData() {
 	defer c.wg.Done()
+	defer verifEvent("hd.exit", c.key, c)
 	periodFlush := c.periodFlush
 	tickerFlush := time.NewTicker(periodFlush)
 	var now time.Time
@@ -192,12 +196,15 @@ func (c *Conn) HandleData() {
 		// choose the size of In based on how long these loop iterations take
 		case buf := <-c.In:
 			// seems to take about 30 micros when writing log to disk, 10 micros otherwise (100k messages/second)
+			verifEvent("hd.recv", c.key, c, buf)
 			active = time.Now()
 			c.numBuffered.Dec(1)
 			action = "write"
 			log.Tracef("conn %s HandleData: writing %s", c.key, buf)
 			c.keepSafe.Add(buf)
+			verifEvent("hd.added", c.key, c, buf)
 			n, err := c.Write(buf)
+			verifEvent("hd.written", c.key, c, buf, err)
 			if err != nil {
 				log.Warnf("conn %s write error: %s. closing", c.key, err)
 				c.close() // this can take a while but that's ok. this conn won't be used anymore
@@ -213,6 +220,7 @@ func (c *Conn) HandleData() {
 			action = "auto-flush"
 			log.Debugf("conn %s HandleData: c.buffered auto-flushing...", c.key)
 			err := c.buffered.Flush()
+			verifEvent("hd.flush", c.key, c, err)
 			if err != nil {
 				log.Warnf("conn %s HandleData c.buffered auto-flush done but with error: %s, closing", c.key, err)
 				c.numErrFlush.Inc(1)
@@ -244,6 +252,7 @@ func (c *Conn) HandleData() {
 			c.manuFlushSize.Update(flushSize)
 			flushSize = 0
 		case <-c.shutdown:
+			verifEvent("hd.shutdown", c.key, c)
 			log.Debugf("conn %s HandleData: shutdown received. returning.", c.key)
 			return
 		}
@@ -291,6 +300,7 @@ func (c *Conn) Flush() error {
 
 func (c *Conn) close() {
 	c.alive(false)
+	verifEvent("conn.close", c.key, c)
 	log.Debugf("conn %s close() called. sending shutdown", c.key)
 	c.shutdown <- true
 	log.Debugf("conn %s c.conn.Close()", c.key)
